@@ -391,7 +391,10 @@ func (c *Ctx) mempoolInputSlot(rule string) {
 			}
 		}
 		refArg := false
-		for _, call := range ssau.CallsIn(kf, func(cm *ssa.CallCommon) bool { o := ssau.CalleeObj(cm); return o != nil && o.Name() == "GetTxReference" }) {
+		for _, call := range ssau.CallsIn(kf, func(cm *ssa.CallCommon) bool {
+			o := ssau.CalleeObj(cm)
+			return o != nil && o.Name() == "GetTxReference"
+		}) {
 			a := call.Common().Args
 			refArg = paramNamed(a[len(a)-1], "tx")
 		}
@@ -494,7 +497,9 @@ func runC07(c *Ctx) {
 		if !ok || !methodCallNamed(x, "IsEqual") || len(call.Call.Args) != 2 {
 			return false, false
 		}
-		isRoot := func(v ssa.Value) bool { return ssau.DependsOn(v, func(y ssa.Value) bool { return ssau.IsCallTo(y, cr) }) }
+		isRoot := func(v ssa.Value) bool {
+			return ssau.DependsOn(v, func(y ssa.Value) bool { return ssau.IsCallTo(y, cr) })
+		}
 		isHdr := func(v ssa.Value) bool {
 			return ssau.DependsOn(v, func(y ssa.Value) bool { return ssau.IsFieldOf(y, "Header", "MerkleRoot") })
 		}
